@@ -3,6 +3,8 @@ package harness
 // gen.go — scenario generators built on World.
 
 import (
+	"math/big"
+
 	"pgregory.net/rapid"
 )
 
@@ -137,6 +139,25 @@ func (w *World) GenTxEntry(cfg GenCfg) (Entry, bool) {
 	case k < cfg.PConv+cfg.PBatch+cfg.PGarbage:
 		w.Tag("garbage")
 		return Entry{ExtIDs: [][]byte{[]byte("1600000000")}, Content: rapid.SliceOfN(rapid.Byte(), 0, 60).Draw(t, "garbage"), Minute: w.nextMinute()}, true
+	case k >= 97:
+		// outputs whose amounts wrap around 2^64 to the input amount: individually plausible
+		// (each below 2^63), invalid as a whole — the entry must have no effect
+		n := rapid.IntRange(3, 4).Draw(t, "wrapN")
+		in := w.AimAmount(hd.V, "wrapIn")
+		total := new(big.Int).Add(new(big.Int).Lsh(big.NewInt(1), 64), new(big.Int).SetUint64(in))
+		each := new(big.Int).Div(total, big.NewInt(int64(n)))
+		tx := Tx{From: hd.A.FA(), Asset: Tickers[hd.T-1], Amt: in}
+		rest := new(big.Int).Set(total)
+		for i := 0; i < n; i++ {
+			v := new(big.Int).Set(each)
+			if i == n-1 {
+				v = rest
+			}
+			rest = new(big.Int).Sub(rest, v)
+			tx.Outs = append(tx.Outs, Xfer{To: w.PickActor("wrapTo").FA(), Amt: v.Uint64()})
+		}
+		w.Tag("outputs-wrap-uint64")
+		return w.Batch(hd.A, []Tx{tx}), true
 	default:
 		nout := rapid.IntRange(1, 3).Draw(t, "nout")
 		var to []string
